@@ -373,7 +373,7 @@ func c11Replay(w json.RawMessage) (string, string) {
 	if err := json.Unmarshal(w, &wit); err != nil {
 		return "bad-witness", err.Error()
 	}
-	if wit.Kind == "persist" || wit.Kind == "ctx" {
+	if wit.Kind == "persist" || wit.Kind == "ctx" || wit.Kind == "related-list" || wit.Kind == "copy" {
 		var ew c11ExtraWitness
 		if err := json.Unmarshal(w, &ew); err != nil {
 			return "bad-witness", err.Error()
